@@ -13,3 +13,5 @@ pub use targets::{
     TwoAdicFriProofTargets, Witness,
 };
 pub use verifier::verify_fri_circuit;
+#[cfg(feature = "verif-hooks")]
+pub use verifier::verif_hooks;
